@@ -578,6 +578,18 @@ func (c *SpecCtx) binop(n *Node) SV {
 		if a.Sort == "Str" {
 			return boolSV(app(n.Op, app("so", a.T), app("so", b.T)))
 		}
+		if a.Sort == "F64" { // the same uninterpreted float64 order the code's comparisons are encoded with
+			switch n.Op {
+			case "<":
+				return boolSV(app("f64_lt", a.T, b.T))
+			case "<=":
+				return boolSV(app("f64_le", a.T, b.T))
+			case ">":
+				return boolSV(app("f64_lt", b.T, a.T))
+			default:
+				return boolSV(app("f64_le", b.T, a.T))
+			}
+		}
 		return boolSV(app(n.Op, a.T, b.T))
 	case "+":
 		if a.Sort == "Str" {
